@@ -286,6 +286,31 @@ def clear():
             r.set('km', f, E.VInt(z3.Int('SECRET_' + f), enum='pgpy.packet.types.MPI'))
         for f in ('n', 'e'):
             r.set('km', f, E.VInt(z3.Int('pub_' + f), enum='pgpy.packet.types.MPI'))
+        # the material has been USED before it is wiped (a private operation asked for the backend key object): whatever that left in
+        # the object must not survive the wipe either
+        lkp = repo.lookup(cls, '__privkey__')
+        used = ex.call_func(E.VFunc(lkp[2], None, cls=lkp[1], self_val=me, mod=repo.classes[lkp[1]].module), [], {}, st, {'mod': repo.classes[lkp[1]].module})
+        used = [(s0, v0) for s0, v0 in used if not isinstance(v0, E.Raise)]
+        if len(used) != 1:
+            raise E.ToolLimit('__privkey__ of the material did not return on exactly one path')
+        r.st = st = used[0][0]
+
+        def mentions_secret(v, s, depth=0):
+            if depth > 6 or v is None:
+                return False
+            if isinstance(v, (E.VInt, E.VBool)):
+                return 'SECRET_' in str(v.z)
+            if isinstance(v, (E.VBytes, E.VBuf)):
+                return 'SECRET_' in str(ex.seq(v, s))
+            if isinstance(v, E.VTuple):
+                return any(mentions_secret(x, s, depth + 1) for x in v.items)
+            if isinstance(v, E.VList):
+                return any(mentions_secret(x, s, depth + 1) for x in ex.items(v, s))
+            if isinstance(v, E.VDict):
+                return any(mentions_secret(a, s, depth + 1) or mentions_secret(b, s, depth + 1) for a, b in v.of(s))
+            if isinstance(v, E.VExt):
+                return any(mentions_secret(x, s, depth + 1) for x in list(v.args or ()) + list((getattr(v, 'kws', None) or {}).values()))
+            return False
         for pi, (s, v) in enumerate(r.call(me, [])):
             if isinstance(v, E.Raise):
                 r.oblige(s, 'safety/p%d' % pi, z3.BoolVal(False), v.where)
@@ -293,6 +318,9 @@ def clear():
             for f in PRIVS['RSAPriv']:
                 fv = s.heap.get(('km', f))
                 r.oblige(s, 'every-secret-field-is-zero(%s)/p%d' % (f, pi), z3.BoolVal(isinstance(fv, E.VInt) and fv.conc() == 0))
+            left = sorted(k[1] for k, hv in s.heap.items() if isinstance(k, tuple) and len(k) == 2 and k[0] == 'km' and mentions_secret(hv, s))
+            r.oblige(s, 'nothing-in-the-material-object-still-depends-on-a-secret-integer(after-it-was-used-for-a-private-operation)[%s]/p%d' % (','.join(left), pi),
+                     z3.BoolVal(not left))
             for f in ('n', 'e'):
                 fv = s.heap.get(('km', f))
                 r.oblige(s, 'public-field-untouched(%s)/p%d' % (f, pi), ex.as_int(fv) == z3.Int('pub_' + f))
